@@ -390,7 +390,7 @@ theorem template_pattern_accepts_exactly (r : Re) (T : List Template) (h : r.tem
 
 /-- table check (finite computation, kernel-evaluated) for the 35 single-value properties of
 `Css21.typedProps`: the registered pattern's templates are among the CSS 2.1 templates of the property, and
-contain every CSS 2.1 template without a leading `+`. -/
+contain every CSS 2.1 template. -/
 theorem typed_table_check :
     (Css21.typedProps.all fun e =>
       match firstPattern e.1 with
@@ -413,16 +413,14 @@ theorem single_type_sound (prop : String) (spec : List Template) (hmem : (prop, 
     have := (typedAgree_spec r spec [] h s hs).1 ha
     simpa using this
 
-/-
-T13.4 [W2] completeness, full statement (does NOT hold — known finding `C13-plus-sign`, pinned by an upstream test):
-  ∀ s, s.getLast? ≠ some 10 → member (CSS 2.1 templates of prop) s = true → accepts r s = true
--/
-/-- T13.4 [W2] completeness, partial with the exact guard: every value of the CSS 2.1 grammar that is not written
-with a leading `+` sign is accepted. -/
-theorem single_type_complete_partial (prop : String) (spec : List Template)
+/-- T13.4 [W2] completeness, full strength since the fixes "number, integer, length, percentage … values accept an
+explicit '+' sign" and "a zero length needs no unit however the zero is written" (before: only values without a leading
+`+`, findings C13-plus-sign / C13-unitless-zero-direct): every value of the CSS 2.1 grammar of the property is
+accepted. -/
+theorem single_type_complete (prop : String) (spec : List Template)
     (hmem : (prop, spec) ∈ Css21.typedProps) :
     ∃ r, firstPattern prop = some r ∧ ∀ s : Str, s.getLast? ≠ some 10 →
-      member (noPlus spec) s = true → accepts r s = true := by
+      member spec s = true → accepts r s = true := by
   have h := List.all_eq_true.1 typed_table_check (prop, spec) hmem
   cases hp : firstPattern prop with
   | none => simp [hp] at h
@@ -434,12 +432,14 @@ theorem single_type_complete_partial (prop : String) (spec : List Template)
 example : member Css21.length (cps "-1.5em") = true ∧ member Css21.length (cps "1.5") = false ∧
     member Css21.length (cps "0") = true ∧ member Css21.integer (cps "+12") = true ∧
     member Css21.integer (cps "1.0") = false ∧ member Css21.percentage (cps ".5%") = true ∧
-    member Css21.number (cps "1.") = false ∧ member (noPlus Css21.length) (cps "+1px") = false ∧
-    member Css21.length (cps "1PX") = true := by decide +kernel
+    member Css21.number (cps "1.") = false ∧ member Css21.length (cps "+1px") = true ∧
+    member Css21.length (cps "0.0") = true ∧ member Css21.length (cps "-.00") = true ∧
+    member Css21.length (cps "0.10") = false ∧ member Css21.length (cps "1PX") = true := by decide +kernel
 
-/-- the remaining finding, machine-checked: `+1px` is a CSS 2.1 `<length>` that the `width` check rejects;
-`none` is no longer accepted for `min-width` -/
-example : (firstPattern "width").map (fun r => accepts r (cps "+1px")) = some false ∧
+/-- the former findings, machine-checked: `+1px` and `0.0` are CSS 2.1 `<length>`s that the `width` check accepts now;
+`none` is not accepted for `min-width` -/
+example : (firstPattern "width").map (fun r => accepts r (cps "+1px")) = some true ∧
+    (firstPattern "width").map (fun r => accepts r (cps "0.0")) = some true ∧
     member Css21.length (cps "+1px") = true ∧
     (firstPattern "min-width").map (fun r => accepts r (cps "none")) = some false := by
   decide +kernel
